@@ -35,6 +35,7 @@ import (
 var (
 	repoDir  = "/repo"
 	verifDir = "/verif"
+	outDir   = "" // where evidence/ and replays/ go (default: verifDir; VERIF_OUT overrides - used by the mutant self-test)
 	scratch  string
 )
 
@@ -640,6 +641,10 @@ func main() {
 	if d := os.Getenv("VERIF_DIR"); d != "" {
 		verifDir = d
 	}
+	outDir = verifDir
+	if d := os.Getenv("VERIF_OUT"); d != "" {
+		outDir = d
+	}
 	if *tier == "" {
 		*tier = os.Getenv("VERIF_TIER")
 	}
@@ -807,7 +812,7 @@ func main() {
 		if strings.HasPrefix(k, "nondeterministic-result:") {
 			for _, m := range det.resultMismatch {
 				if "nondeterministic-result:"+m.fams == k {
-					path := filepath.Join(verifDir, "replays", "C19-"+sanitize(k)+".json")
+					path := filepath.Join(outDir, "replays", "C19-"+sanitize(k)+".json")
 					os.MkdirAll(filepath.Dir(path), 0o755)
 					os.WriteFile(path, m.plan, 0o644)
 					fmt.Printf("C19 violated: results differ between two executions of the same seed and schedule (run index %d): %s\n", m.index, m.detail)
@@ -864,7 +869,7 @@ func main() {
 		}
 		min.Violation = v
 		min.TreeDigest = digest
-		path := filepath.Join(verifDir, "replays", "C19-"+sanitize(k)+".json")
+		path := filepath.Join(outDir, "replays", "C19-"+sanitize(k)+".json")
 		os.MkdirAll(filepath.Dir(path), 0o755)
 		b, _ := json.MarshalIndent(min, "", " ")
 		os.WriteFile(path, append(b, '\n'), 0o644)
